@@ -238,3 +238,19 @@ M("c17-routing-order", "C17", OUF, '                        lhapdf_like, self["p
 M("c17-atlas-origin", "C17", OUF, '            origin=(theory["Qref"] ** 2, theory["nfref"]),', '            origin=(theory["Qref"], theory["nfref"]),', expect="C17.alphas")
 B("c17-power-spelling", "C17", RSF, "            lnF = 1.0 if o[3] == 0 else (np.log((1 / xiF) ** 2)) ** o[3]", "            lnF = (-2.0 * np.log(xiF)) ** o[3]")
 B("c17-prefactor-order", "C17", RSF, "            prefactor = (a_s ** o[0]) * (alph_qed ** o[1]) * lnR * lnF", "            prefactor = lnF * lnR * (alph_qed ** o[1]) * (a_s ** o[0])")
+
+# ----------------------------------------------------------------------------- C20
+CPF = "input/compatibility.py"
+M("c20-no-copy", "C20", CPF, "    new_theory = theory.copy()", "    new_theory = theory", expect="C20.inputs")
+M("c20-obs-no-copy", "C20", CPF, "    new_obs = observables.copy()", "    new_obs = observables", expect="C20.inputs")
+M("c20-nested-target-write", "C20", "runner.py", "        self.observables = {}\n        for obs_name, kins in", "        new_observables[\"TargetDIS\"][\"Z\"] = float(new_observables[\"TargetDIS\"][\"Z\"]) * 1.0\n        observables[\"prDIS\"] = new_observables[\"prDIS\"].upper()\n        self.observables = {}\n        for obs_name, kins in", expect="C20.inputs")
+M("c20-kin-sort", "C20", "sf.py", "        self.esfs = []\n        # iterate F* configurations\n        for kinematics in kinematic_configs:", "        self.esfs = []\n        kinematic_configs.sort(key=lambda k: k[\"Q2\"])\n        # iterate F* configurations\n        for kinematics in kinematic_configs:", expect="C20.inputs")
+M("c20-kin-write", "C20", "esf/esf.py", "        self.x = x\n        self.Q2 = kinematics[\"Q2\"]\n        self.nf = None", "        self.x = x\n        self.Q2 = kinematics[\"Q2\"]\n        kinematics[\"nf\"] = None\n        self.nf = None", expect="C20.inputs")
+M("c20-kin-pop-y", "C20", "esf/exs.py", "        self.y = kin[\"y\"]", "        self.y = kin.pop(\"y\")", expect="C20.inputs")
+M("c20-echo-upgraded", "C20", "runner.py", "        self._output.theory = theory\n", "        self._output.theory = new_theory\n", expect="C20.inputs")
+M("c20-echo-obs-upgraded", "C20", "runner.py", "        self._output.observables = observables\n", "        self._output.observables = new_observables\n", expect="C20.inputs")
+M("c20-results-sorted-order", "C20", "runner.py", "                    results[idx] = elem.get_result()", "                    results[results.index(None)] = elem.get_result()", expect="C20.inputs")
+M("c20-not-idempotent", "C20", CPF, '    if "QED" in new_theory:\n        new_theory["order"] = (new_theory["PTO"] + 1, new_theory.pop("QED"))', '    if "QED" in new_theory:\n        new_theory["order"] = (new_theory["PTO"] + 1, new_theory.pop("QED"))\n    new_theory["PTO"] = new_theory["PTO"] + 0\n    new_theory["kcThr"] = new_theory["kcThr"] * 2', expect="idempotent")
+M("c20-projectile-echo", "C20", "runner.py", '        self._output["projectilePID"] = coupling_constants.obs_config["projectilePID"]', '        self._output["projectilePID"] = abs(coupling_constants.obs_config["projectilePID"])', expect="projectilePID")
+B("c20-deepcopy-then-mutate", "C20", CPF, "    new_theory = theory.copy()", "    import copy as _copy\n\n    new_theory = _copy.deepcopy(theory)")
+B("c20-rename-newobs", "C20", CPF, "    new_obs = observables.copy()\n    update_fns(new_theory)\n    update_scale_variations(new_theory)\n    update_target(new_obs)", "    upgraded = dict(observables)\n    update_fns(new_theory)\n    update_scale_variations(new_theory)\n    update_target(upgraded)\n    new_obs = upgraded")
